@@ -94,6 +94,16 @@ Section Dispatch.
     | _ => None
     end.
 
+  (* ---- what can happen to an obstacle between construction and a query (scenario/obstacle.py: initial_state setter
+     240-255 recomputes the initial occupancy, prediction setter 565-572, update_initial_state 663-712 = new initial
+     state + prediction invalidated, update_prediction 714-726): an obstacle after any such history answers like a
+     freshly constructed obstacle with its current attributes.  obstacle_shape is immutable (the setter only warns). *)
+  Definition set_initial_state (o : obstacle) (st : S) : obstacle :=
+    match o with Static i ty _ => Static i ty st | Dynamic i ty _ p => Dynamic i ty st p | _ => o end.
+  Definition set_prediction (o : obstacle) (p : option prediction) : obstacle :=
+    match o with Dynamic i ty init _ => Dynamic i ty init p | _ => o end.
+  Definition update_initial_state (o : obstacle) (st : S) : obstacle := set_prediction (set_initial_state o st) None.
+
   (* ---- scenario level.  Scenario.obstacles = static ++ dynamic ++ phantom ++ environment (dict order) *)
   Definition is_role (r : role) (o : obstacle) : bool := role_eqb (ob_role o) r.
   Definition all_obstacles (obs : list obstacle) : list obstacle :=
